@@ -103,6 +103,14 @@ P = {
          'TLA+ model of the tasklane protocol with explicit Go channel/select semantics (poll-and-park, rendezvous only with a parked peer, close(done) claiming parked goroutines, timer), one action per select/statement; TLC checks all interleavings incl. cancellation at every point, safety invariants and liveness under weak fairness, and rejects spec mutants; traces of the real TaskLane (verif hooks as event sources and as cancellation gates at every protocol point, quiescence by goroutine census) are validated by TLC against the statement layer',
          'worker survives panics, LastPanicIsOne, StatusBounds for the multi-step Status read, AtRestExact (~ENABLED Internal) in the model (1.4M states); on the real code (-race build): simultaneous typed panics in several rounds with Status pollers, systematic at-rest states (pinned 0 / n-1 / n, every queue size) with exact PendingTask comparison, race detector reports on tasklane.go are violations',
          "witnessed schedules only (widened by hook gates, seeded yields, systematic scenario families); bounded model constants as stated", '5/C14'),
+ "C02": ("spec/logger/LogSink.tla (+LogSinkMC), spec/logger/LogSinkCases.tla",
+         "TLA+ model of Handle(): level gate, pooled buffer, format, shared mutex (pointer copied by clone), Write begin/end, free; "
+         "TLC checks NoOverlap / OwnLine / ExactlyOnce / PoolSafe for all interleavings of 3 goroutines x 2 records and rejects 3 "
+         "mutants; traces recorded at the real destination writer (dwelling inside Write) are judged by TLC with the same statement",
+         "all interleavings of the bounded model; every Write call of real concurrent runs (3 handlers, derived loggers, sizes beyond the "
+         "16 KiB pool limit, thresholds) must be alone on the destination, carry exactly the line the record gives when logged alone, "
+         "once per enabled record and never for disabled ones",
+         "witnessed schedules only (dwell inside Write makes overlap near-certain if serialisation is missing); timestamps masked", "5/C02"),
 }
 
 NOT_BUILT_REASON = "check not built yet in this session (see DESIGN.md section 5 for the planned TLA+ spec and binding)"
